@@ -23,7 +23,7 @@ TRUSTED_BASE = [
     "extraction: ExtrOcamlBasic only (bool/option/list/prod/unit/sumbool), N/positive/nat kept as Coq inductives; OCaml 4.13.1 ocamlfind ocamlopt",
     "hand-written OCaml driver (parsing, printing, int<->N, native CRC-32 cross-checked against the Gallina crc32 at start-up)",
     "Go correspondence harness (generators, runner, verif-tagged hooks in /repo) and this orchestrator",
-    "translators T1 (constants), T2 (lock/access table), T3 (exit paths of Open) regenerate coq/gen/*.v from the Go source on every run",
+    "translators T1 (constants), T2 (lock/append/index sequence of Put and Delete), T2b (lock-event paths of every exported call), T2c (lockset table: every field access of DB/Batch/DataFile/MMap and every index-shard use on every path, with the locks held), T3 (exit paths of Open and Close) regenerate coq/gen/*.v from the Go source on every run",
     "modelled, not verified: Go runtime, sync.RWMutex, os/file-system semantics (durability model: a synced prefix survives, metadata operations atomic and durable), flock(2), mmap(2), third-party containers (google/btree, huandu/skiplist, container/heap), xxhash, snowflake ids, CRC-32 collision freedom",
 ]
 
@@ -183,6 +183,9 @@ def proof_gate(prop_id):
     rc, out, _ = sh("timeout 1200 coqc %s props/%s.v" % (args, prop_id), cwd=COQ, timeout=1300)
     res["log"] = out
     if rc != 0:
+        rep = os.path.join(COQ, "gen", "access_report.txt")
+        if prop_id == "C09" and os.path.exists(rep) and os.path.getsize(rep) > 0:
+            res["log"] += "\nlockset table (translator T2c), unprotected pairs:\n" + open(rep).read()[:6000]
         return res
     src = strip_coq_comments(open(vfile).read())
     res["theorems"] = re.findall(r"^\s*(?:Theorem|Corollary)\s+(\w+)", src, re.M)
